@@ -140,6 +140,13 @@ def parse_frame(bs):
     return bs[0], val, i - 1
 
 
+UNTRANSMITTED_WILL = ('Will.TopicAlias', 'Will.SubscriptionIDs', 'Will.PacketID', 'Will.Duplicate')
+
+
+def drop_keys(view, keys):
+    return ';'.join(kv for kv in view.split(';') if kv.partition('=')[0].split(' ')[-1] not in keys)
+
+
 def js_c02(sh, ctx):
     out = []
     reqs = []  # (case index, line, hex, expected view)
@@ -150,8 +157,9 @@ def js_c02(sh, ctx):
         res['keys'] = []
         out.append(res)
         d = notes(sh['ops'][a + 1]) if a + 1 < b else {}
-        if d.get('wf') != '1' and not sh['cls'].startswith('corpus'):
+        if d.get('wf') not in ('1', 's') and not sh['cls'].startswith('corpus'):
             continue
+        structure_only = d.get('wf') == 's'
         view, last = None, None
         for i in range(a, b):
             op, g = sh['ops'][i], sh['go'][i]
@@ -160,7 +168,7 @@ def js_c02(sh, ctx):
             if op.startswith('SET p '):
                 view = None          # the values changed: wait for the next accessor snapshot
             if op == 'ENC p' and g.startswith('enc ') and view is not None:
-                last = (ci, i, g.split()[1], view)
+                last = (ci, i, g.split()[1], view, structure_only)
         if last:
             reqs.append(last)
         res['keys'] = [setter_key(sh, a, b)]
@@ -168,8 +176,11 @@ def js_c02(sh, ctx):
         ops = ''.join('SPEC %s\n' % r[2] for r in reqs)
         p = subprocess.run([ctx['DRIVER']], input=ops, capture_output=True, text=True)
         lines = p.stdout.split('\n')
-        for (ci, i, hx, view), got in zip(reqs, lines):
+        for (ci, i, hx, view, structure_only), got in zip(reqs, lines):
             out[ci]['evals'] += 1
+            if structure_only:
+                # a will carrying fields MQTT cannot transmit: the frame must be valid and every other value read back
+                got, view = drop_keys(got, UNTRANSMITTED_WILL), drop_keys(view, UNTRANSMITTED_WILL)
             if got != 'spec ' + view:
                 out[ci]['concrete'].append(dict(line=i, what='frame %s… is not what the specification reads back: spec reader says `%s`, API values `%s`' % (
                     hx[:60], got[:200], view[:200])))
@@ -477,18 +488,68 @@ def j_c12(sh, a, b):
 
 
 def j_c14(sh, a, b):
-    res = base(sh, a, b, {'NEW', 'SET', 'DEC'})
+    """oracle on the implementation alone: the accessor snapshot of a packet that has not been operated on since
+    its last snapshot (taken by VIEW, or by DEC itself) must not have changed — whatever happened to the input
+    buffer it was decoded from (SCRIBBLE) or to any other packet. The model (value semantics) predicts exactly
+    this; a disagreement between model and implementation about what a frame decodes *to* is C03's business."""
+    res = base(sh, a, b, {'SCRIBBLE'})
+    known = {}
     for i in range(a, b):
-        if opname(sh['ops'][i]) == 'VIEW':
+        t = sh['ops'][i].split()
+        if not t:
+            continue
+        op, g = t[0], sh['go'][i]
+        if op == 'RESET':
+            known = {}
+        elif op == 'DEC' and len(t) >= 2:
+            known[t[1]] = g[len('dec ok '):] if g.startswith('dec ok ') else None
+        elif op in ('NEW', 'ZERO', 'SET', 'RD', 'RDP') and len(t) >= 2:
+            known[t[-1] if op == 'RDP' else t[1]] = None
+        elif op == 'VIEW' and len(t) >= 2 and g.startswith('view '):
             res['evals'] += 1
-            if sh['go'][i] != sh['lean'][i]:
-                res['concrete'].append(dict(line=i, what='packet changed without being operated on (value-semantics model): impl `%s` model `%s`' % (
-                    sh['go'][i][:300], sh['lean'][i][:300])))
+            cur = g[len('view '):]
+            old = known.get(t[1])
+            if old is not None and old != cur:
+                res['concrete'].append(dict(line=i, what='packet %s changed without being operated on: was `%s` now `%s`' % (
+                    t[1], old[:300], cur[:300])))
                 break
+            known[t[1]] = cur
     ops = [opname(sh['ops'][i]) for i in range(a, b)]
     res['keys'] = [hashlib.md5('\n'.join(sh['ops'][a:b]).encode()).hexdigest()[:10]] if 'SCRIBBLE' in ops else []
     res['hist'] = ['op=' + o for o in ops if o in ('DEC', 'SCRIBBLE', 'SET', 'ENC')]
     return res
+
+
+def js_c14(sh, ctx):
+    """j_c14 per case, plus history independence of decoding: where the implementation's DEC result differs from the
+    model's (the model has no history), the same constructor/setter/DEC lines are replayed in a fresh process; a
+    different result there means the frame decodes differently depending on what was processed before."""
+    out = []
+    budget = 6
+    for a, b in ctx['split_cases'](sh):
+        res = j_c14(sh, a, b)
+        out.append(res)
+        since_new = {}
+        for i in range(a, b):
+            t = sh['ops'][i].split()
+            if len(t) < 2:
+                continue
+            if t[0] in ('NEW', 'ZERO'):
+                since_new[t[1]] = [sh['ops'][i]]
+            elif t[0] == 'SET' and t[1] in since_new:
+                since_new[t[1]].append(sh['ops'][i])
+            elif t[0] == 'DEC' and t[1] in since_new:
+                hist = since_new[t[1]] + [sh['ops'][i]]
+                since_new[t[1]] = hist
+                if not same(sh['go'][i], sh['lean'][i]) and budget > 0 and not res['concrete']:
+                    budget -= 1
+                    fresh = ctx['exec_go'](sh['harness'], 'RESET\n' + '\n'.join(hist) + '\n')
+                    res['evals'] += 1
+                    got = fresh[len(hist)] if len(fresh) > len(hist) else '<no output>'
+                    if got != sh['go'][i]:
+                        res['concrete'].append(dict(line=i, from_start=True, what='a frame decodes differently depending on what was processed before: '
+                                                    'in this history `%s`, in a fresh process `%s`' % (sh['go'][i][:300], got[:300])))
+    return out
 
 
 # ------------------------------------------------------------------------------------------ C15
@@ -744,7 +805,7 @@ def P(judge, quick, thorough, rule, **kw):
 PROPS = {
     'C01': P(per_case(j_c01), [('pkt', 1400), ('rewrite', 400)], [('pkt', 40000), ('pkt+', 2000), ('rewrite', 10000)],
              'one case = one in-domain packet built through the API; distinct by (type, set of setters used, boundary lengths hit); non-trivial = has at least the constructor and the round trip ran'),
-    'C02': P(js_c02, [('pkt', 1400), ('rewrite', 400)], [('pkt', 40000), ('pkt+', 2000), ('rewrite', 10000)],
+    'C02': P(js_c02, [('pkt', 1400), ('rewrite', 400), ('willx', 200)], [('pkt', 40000), ('pkt+', 2000), ('rewrite', 10000), ('willx', 5000)],
              'well-formed in-domain packets; the bytes WriteTo produced are parsed by the independent Spec.parse in Lean and compared with the API values; distinct as C01'),
     'C03': P(js_c03, [('frames', 1600)], [('frames', 40000), ('frames+', 1500)],
              'specification-style generated valid frames (all 15 types, property permutations, explicit zeros, short forms); distinct by (type, set of non-default fields)'),
@@ -769,7 +830,7 @@ PROPS = {
     'C13': P(per_case(j_c13), [('pkt', 200)], [('pkt', 2000)],
              'sequential encodings against the model, plus goroutines doing read-only operations on shared packets under the Go race detector (input_distribution: race-run …); distinct as C01',
              extra=extra_c13),
-    'C14': P(per_case(j_c14), [('pool', 500)], [('pool', 20000)],
+    'C14': P(js_c14, [('pool', 500)], [('pool', 20000)],
              'histories over a pool of 2..5 packets (decode, scribble over the decoder input, set, encode) with all packets viewed after every step; distinct = histories containing a scribble'),
     'C15': P(per_case(j_c15), [('vb', 4000)], [('vb', 100000)],
              'boundary values, random values, random byte sequences through the hooks, against a closed-form oracle; thorough adds the exhaustive Go sweep; distinct = distinct op lines'),
